@@ -48,6 +48,20 @@ PROPS["C13"] = {
     "assumptions": ["history versions >= 0 for the 'found iff exists' direction"],
 }
 
+PROPS["C15"] = {
+    "props": ["OsmVerif.Props.C15"],
+    "gens": ["Update"],
+    "required_theorems": ["apply_exact", "apply_pending", "apply_child", "apply_untouched", "apply_keys", "apply_index_error",
+                          "apply_compose", "reverse_flips", "lineStringAtWith_continue_eq_apply", "lineStringAt_eq_apply_partial",
+                          "lineStringAt_eq_apply", "lineStringAt_break_counterexample"],
+    "technique": "Lean 4 theorems (fold/per-index characterisation, sorted-list split lemma) about a hand-written executable model of ApplyUpdatesUpTo/LineString/LineStringAt with the late-update branch regenerated from way.go; tied by a differential line protocol",
+    "level_text": "Machine-checked proof for all child lists, all update lists (any stored order) and all times that the model of ApplyUpdatesUpTo applies exactly the updates stamped <= t in list order (per-child view, untouched children, identities and length preserved, orientation flip for reversed relation members only), keeps the later ones pending in original order, reports the first out-of-range index without writing outside the list, composes (t1 <= t2, per-child time-ordered lists), and that the geometry-at-time query equals the geometry of an updated copy for fully annotated ways. The late-update branch of Way.LineStringAt (break vs continue) is extracted from way.go each run; the rest of the model is hand-written and tied by running it and the real code on the same ~20k generated cases.",
+    "level_note": "Trusted: Lean kernel; correspondence harness; float64 coordinates are only copied and compared with zero (modelled as opaque integers, generator uses exactly representable values); time.Time.After modelled as > on unix seconds; negative update indices are outside the model (the code panics on them; not generated).",
+    "design_ref": "DESIGN.md §5 C15",
+    "trusted_base": ["model Model/Updates.lean is hand-written; tie = differential stream (./check C15) + extracted late-update branch"],
+    "assumptions": ["update indices are non-negative", "fully annotated ways = every node version != 0, annotated updates = version != 0 (geometry claim)"],
+}
+
 NOT_APPLICABLE = {pid: "check not built yet in this session (planned, see DESIGN.md §9); no claim is made" for pid in
                   ["C%02d" % i for i in range(1, 21)] if pid not in PROPS}
 
